@@ -234,7 +234,7 @@ Proof.
         split; [eapply vec_mono; eauto; lia|]. split; auto. split; [lia|exact X].
       * left. apply try_push_err in E as E'. destruct E' as [-> ->]. split; auto.
         eapply try_push_err_size; eauto. apply Hi.
-      * destruct Hi as [[N1 N2] _ _ _ _ _ _]. eapply try_push_no_panic; eauto.
+      * destruct Hi as [[N1 N2] _ _ _ _ _ _ _]. eapply try_push_no_panic; eauto.
   - assert (Hstep : forall (wr : wname -> writer -> M (option prior)),
                (forall n, wf_name n -> exists cp, name_postL cp h n w L (wr n w)) ->
                rd_names (ct :: rest) rd =
@@ -257,7 +257,7 @@ Proof.
       - destruct (parse_unc_name rd nm len Hwf Ep) as [Hwn [Hlen Hle]].
         destruct (Hwr _ Hwn) as [cp Hpost]. cbn zeta.
         destruct (wr (labels_of_name nm) w) as [[pr w1]|[e w1]|] eqn:Ew; simpl.
-        + destruct Hpost as [W [Hsz [_ [L1 [G1 [Hi1 HpL]]]]]].
+        + destruct Hpost as [W [Hsz [_ [L1 [G1 [Hi1 [HpL HT1]]]]]]].
           pose proof W as [X [[S1 [S2 [S3 S4]]] _]].
           pose proof (anch_new _ _ _ _ _ _ L1 W HpL) as Apr.
           assert (Hi2 : NInv (set_mrn w1 pr) h L1).
@@ -322,7 +322,7 @@ Proof.
       * left. apply try_push_err in E as E'. destruct E' as [-> ->]. split; auto.
         pose proof (try_push_err_size _ _ _ _ (proj1 (ni_nb _ _ _ Hi)) E) as K.
         rewrite firstn_length in K. lia.
-      * destruct Hi as [[N1 N2] _ _ _ _ _ _]. eapply try_push_no_panic; eauto.
+      * destruct Hi as [[N1 N2] _ _ _ _ _ _ _]. eapply try_push_no_panic; eauto.
 Qed.
 
 (* ---------------------------------------------------------------- writes outside the readable region *)
@@ -339,7 +339,7 @@ Lemma NInv_patch w h L pos data b' : NInv w h L -> buf_write (w_buf w) pos data 
   (pos + length data <= header_size \/ (h <= pos /\ pos + length data <= h + 2)) ->
   NInv (set_buf w b') (length b') L /\ ragree header_size (w_cursor w) h (w_buf w) b'.
 Proof.
-  intros [[N1 N2] Hlo Hh Hcl Hd [Pq [Po Pr]] HL] W Hpos.
+  intros [[N1 N2] Hlo Hh Hcl Hd [Pq [Po Pr]] HL Hsd] W Hpos.
   assert (R : ragree header_size (w_cursor w) h (w_buf w) b').
   { eapply buf_write_ragree; eauto. tauto. }
   pose proof (buf_write_length _ _ _ _ W) as Hlen.
@@ -354,6 +354,7 @@ Proof.
     + destruct (w_mro w) as [pr|] eqn:E; simpl; auto. eapply prior_ok_transfer; eauto.
     + destruct (w_mrn w) as [pr|] eqn:E; simpl; auto. eapply prior_ok_transfer; eauto.
   - exact HL.
+  - eapply sdec_transfer; eauto. lia.
 Qed.
 
 (* ---------------------------------------------------------------- the three named anchors *)
@@ -410,7 +411,7 @@ Proof.
   pose proof (write_hinted_L _ h owner w L Hi Hwf Hh HhL) as P1.
   destruct (write_hinted_name h owner w) as [[pr w1]|[e w1]|]; simpl in P1; cbn [bind]; auto.
   2:{ destruct P1 as [-> [_ [_ Hs]]]. left. split; auto. lia. }
-  destruct P1 as [W [Hsz [_ [L1 [G1 [Hi1 HpL]]]]]].
+  destruct P1 as [W [Hsz [_ [L1 [G1 [Hi1 [HpL HT1]]]]]]].
   pose proof W as [X [Sd _]].
   pose proof (anch_new _ _ _ _ _ _ L1 W HpL) as Apr.
   assert (Hlen1 : length (w_buf w1) = length (w_buf w)) by apply X.
@@ -428,19 +429,19 @@ Proof.
   generalize dependent (set_mro w1 pr). intros w1' Hi1' A1 V1 Hc1 Hav1 Hl1 Hq1.
   pose proof (x_av _ _ _ X) as Hav0. pose proof (x_cur _ _ _ X) as Hcur0.
   destruct (try_push_u16 ty w1') as [[u2 w2]|[e w2]|] eqn:E2; cbn [bind].
-  3:{ destruct Hi1' as [[N1 N2] _ _ _ _ _ _]. eapply try_push_no_panic; eauto. }
+  3:{ destruct Hi1' as [[N1 N2] _ _ _ _ _ _ _]. eapply try_push_no_panic; eauto. }
   2:{ left. apply try_push_err in E2 as E'. destruct E' as [-> ->]. split; auto.
       pose proof (try_push_err_size _ _ _ _ (proj1 (ni_nb _ _ _ Hi1')) E2) as K.
       unfold be16 in K. simpl length in K. lia. }
   destruct (push_step _ _ _ _ _ _ _ _ _ _ _ E2 Hi1' A1 V1) as [Hi2 [A2 [V2 [Hc2 [X2 Q2]]]]].
   destruct (try_push_u16 cl w2) as [[u3 w3]|[e w3]|] eqn:E3; cbn [bind].
-  3:{ destruct Hi2 as [[N1 N2] _ _ _ _ _ _]. eapply try_push_no_panic; eauto. }
+  3:{ destruct Hi2 as [[N1 N2] _ _ _ _ _ _ _]. eapply try_push_no_panic; eauto. }
   2:{ left. apply try_push_err in E3 as E'. destruct E' as [-> ->]. split; auto.
       pose proof (try_push_err_size _ _ _ _ (proj1 (ni_nb _ _ _ Hi2)) E3) as K.
       unfold be16 in K, Hc2. simpl length in K, Hc2. rewrite (x_av _ _ _ X2) in K. lia. }
   destruct (push_step _ _ _ _ _ _ _ _ _ _ _ E3 Hi2 A2 V2) as [Hi3 [A3 [V3 [Hc3 [X3 Q3]]]]].
   destruct (try_push_u32 ttl w3) as [[u4 w4]|[e w4]|] eqn:E4; cbn [bind].
-  3:{ destruct Hi3 as [[N1 N2] _ _ _ _ _ _]. eapply try_push_no_panic; eauto. }
+  3:{ destruct Hi3 as [[N1 N2] _ _ _ _ _ _ _]. eapply try_push_no_panic; eauto. }
   2:{ left. apply try_push_err in E4 as E'. destruct E' as [-> ->]. split; auto.
       pose proof (try_push_err_size _ _ _ _ (proj1 (ni_nb _ _ _ Hi3)) E4) as K.
       unfold be16 in Hc2, Hc3. unfold be32 in K. simpl length in K, Hc2, Hc3.
@@ -459,14 +460,15 @@ Proof.
   set (c4 := w_cursor w4) in *.
   set (w5 := set_cursor w4 (c4 + 2)).
   assert (Hi5 : NInv w5 c4 L1).
-  { destruct Hi4 as [_ Hlo4 _ Hcl4 Hd4 [Pq [Po Pr]] HL4]. constructor; simpl.
+  { destruct Hi4 as [_ Hlo4 _ Hcl4 Hd4 [Pq [Po Pr]] HL4 Hsd4]. constructor; simpl.
     - split; simpl; lia.
     - fold c4 in Hlo4. lia.
     - right. lia.
     - eapply closed_mono_c; [eapply closed_rehole; eauto|lia]; try (fold c4; lia).
     - eapply decodable_mono; eauto; try (fold c4; lia).
     - repeat split; simpl; eapply oprior_ok_stable; eauto; try apply agree_refl; fold c4; lia.
-    - exact HL4. }
+    - exact HL4.
+    - eapply sdec_mono; eauto; try (fold c4; lia). }
   assert (A5 : anch3 w5 L1 gq (Some owner) gr).
   { destruct A4 as [B1 [B2 B3]]. unfold anch3, w5; simpl.
     repeat split; eapply anch_mono; eauto; try apply agree_refl; fold c4; lia. }
